@@ -185,6 +185,8 @@ func (w *World) value(key, vc string, arg int) []byte {
 		return fill(3)
 	case "E":
 		return []byte{}
+	case "S2": // constant small value (identical bytes on every use)
+		return []byte("same")
 	case "F": // fixed length (arg bytes), independent of the configuration
 		return fill(arg)
 	case "L": // large relative to the file: two of them never fit in one file
